@@ -57,7 +57,6 @@ impl InnerInMemory {
     ) -> Result<Vec<Arc<RecordSet>>, LookupError> {
         let Nsec3QueryInfo {
             qname,
-            qtype,
             has_wildcard_match,
             ..
         } = info;
@@ -115,7 +114,7 @@ impl InnerInMemory {
             if let Some(record) = self.records.get(&rr_key) {
                 records.push(record.clone());
             }
-        } else if qtype != RecordType::DS {
+        } else {
             let wildcard_at_closest_encloser = next_closer_name.into_wildcard();
             if let Some(cover) = self.find_cover(&wildcard_at_closest_encloser, zone, &info)? {
                 records.push(cover);
